@@ -10,7 +10,7 @@ Text is handled as `List Char` (Unicode scalar values); bytes are the UTF-8 enco
 (`List.utf8Encode`), produced/consumed only at the outermost level.  The renderer emits `'\n'` for
 every line break; the stream-level presentation substitutes LF / CRLF / CR afterwards.
 -/
-namespace SV.Yaml
+namespace SV.YamlRef
 
 abbrev Str := List Char
 
@@ -450,4 +450,4 @@ def PStream.chars (s : PStream) : Str :=
 /-- `render`: the UTF-8 bytes of a presentation-annotated stream. -/
 def render (s : PStream) : ByteArray := (String.ofList s.chars).toUTF8
 
-end SV.Yaml
+end SV.YamlRef
